@@ -241,6 +241,7 @@ def write_evidence(prop, tier, seed, mod, results, tv, wall, n_viol, known_hits,
     for r in results:
         encoded.update(r.get("encoded", []))
     encoded.update(E.encoded)
+    encoded.update(meta.get("glue", []))          # functions executed natively (real source, symbolic arrays)
     funcs = {}
     for q in sorted(encoded):
         try:
